@@ -1,2 +1,185 @@
-(* C08 -- theorems are being added *)
-From ZK Require Import Laws.
+(* C08 -- untrusted input never crashes a BBS verifier, signer or holder: for ALL byte strings, index lists
+   and counts the model's entry points return Ok / Err (never Panic), and the number of generators
+   they request is bounded by the size of the input.  [P1_ok] = the suite's P1 constant decodes (checked for the
+   generated constants in Properties/C11.v); [fits n] = an in-memory list has fewer than 2^62 elements. *)
+From ZK Require Import Laws NoPanic.
+
+Theorem C08_no_panic_sk_from_bytes :
+  forall (E : env) b, sk_from_bytes E b <> Panic.
+Proof. exact no_panic_sk_from_bytes. Qed.
+Check (C08_no_panic_sk_from_bytes :
+  forall (E : env) b, sk_from_bytes E b <> Panic).
+Print Assumptions C08_no_panic_sk_from_bytes.
+
+Theorem C08_no_panic_pk_from_bytes :
+  forall (E : env) b, pk_from_bytes E b <> Panic.
+Proof. exact no_panic_pk_from_bytes. Qed.
+Check (C08_no_panic_pk_from_bytes :
+  forall (E : env) b, pk_from_bytes E b <> Panic).
+Print Assumptions C08_no_panic_pk_from_bytes.
+
+Theorem C08_no_panic_pk_from_xy :
+  forall (E : env) x y, pk_from_xy E x y <> Panic.
+Proof. exact no_panic_pk_from_xy. Qed.
+Check (C08_no_panic_pk_from_xy :
+  forall (E : env) x y, pk_from_xy E x y <> Panic).
+Print Assumptions C08_no_panic_pk_from_xy.
+
+Theorem C08_no_panic_sig_from_bytes :
+  forall (E : env) b, sig_from_bytes E b <> Panic.
+Proof. exact no_panic_sig_from_bytes. Qed.
+Check (C08_no_panic_sig_from_bytes :
+  forall (E : env) b, sig_from_bytes E b <> Panic).
+Print Assumptions C08_no_panic_sig_from_bytes.
+
+Theorem C08_no_panic_blind_from_bytes :
+  forall (E : env) b, blind_from_bytes E b <> Panic.
+Proof. exact no_panic_blind_from_bytes. Qed.
+Check (C08_no_panic_blind_from_bytes :
+  forall (E : env) b, blind_from_bytes E b <> Panic).
+Print Assumptions C08_no_panic_blind_from_bytes.
+
+Theorem C08_no_panic_pok_from_bytes :
+  forall (E : env) b, pok_from_bytes E b <> Panic.
+Proof. exact no_panic_pok_from_bytes. Qed.
+Check (C08_no_panic_pok_from_bytes :
+  forall (E : env) b, pok_from_bytes E b <> Panic).
+Print Assumptions C08_no_panic_pok_from_bytes.
+
+Theorem C08_no_panic_zkpok_from_bytes :
+  forall (E : env) b, zkpok_from_bytes E b <> Panic.
+Proof. exact no_panic_zkpok_from_bytes. Qed.
+Check (C08_no_panic_zkpok_from_bytes :
+  forall (E : env) b, zkpok_from_bytes E b <> Panic).
+Print Assumptions C08_no_panic_zkpok_from_bytes.
+
+Theorem C08_no_panic_commitment_from_bytes :
+  forall (E : env) b, commitment_from_bytes E b <> Panic.
+Proof. exact no_panic_commitment_from_bytes. Qed.
+Check (C08_no_panic_commitment_from_bytes :
+  forall (E : env) b, commitment_from_bytes E b <> Panic).
+Print Assumptions C08_no_panic_commitment_from_bytes.
+
+Theorem C08_no_panic_verify :
+  forall (E : env), (exists p, g1_dec (PR E) (c_p1 (cs E)) = Some p) ->
+  forall s pk msgs header, verify E s pk msgs header <> Panic.
+Proof. exact no_panic_verify. Qed.
+Check (C08_no_panic_verify :
+  forall (E : env), (exists p, g1_dec (PR E) (c_p1 (cs E)) = Some p) ->
+  forall s pk msgs header, verify E s pk msgs header <> Panic).
+Print Assumptions C08_no_panic_verify.
+
+Theorem C08_no_panic_proof_verify :
+  forall (E : env), (exists p, g1_dec (PR E) (c_p1 (cs E)) = Some p) ->
+  forall p pk dmsgs idx header ph, proof_verify E p pk dmsgs idx header ph <> Panic.
+Proof. exact no_panic_proof_verify. Qed.
+Check (C08_no_panic_proof_verify :
+  forall (E : env), (exists p, g1_dec (PR E) (c_p1 (cs E)) = Some p) ->
+  forall p pk dmsgs idx header ph, proof_verify E p pk dmsgs idx header ph <> Panic).
+Print Assumptions C08_no_panic_proof_verify.
+
+Theorem C08_no_panic_blind_proof_verify :
+  forall (E : env), (exists p, g1_dec (PR E) (c_p1 (cs E)) = Some p) ->
+  forall p pk header ph L dmsgs dcmsgs idx cidx,
+  fits (length (option_default [] idx)) -> fits (length (option_default [] cidx)) ->
+  fits (length (p_m_cap E p)) ->
+  blind_proof_verify E p pk header ph L dmsgs dcmsgs idx cidx <> Panic.
+Proof. exact no_panic_blind_proof_verify. Qed.
+Check (C08_no_panic_blind_proof_verify :
+  forall (E : env), (exists p, g1_dec (PR E) (c_p1 (cs E)) = Some p) ->
+  forall p pk header ph L dmsgs dcmsgs idx cidx,
+  fits (length (option_default [] idx)) -> fits (length (option_default [] cidx)) ->
+  fits (length (p_m_cap E p)) ->
+  blind_proof_verify E p pk header ph L dmsgs dcmsgs idx cidx <> Panic).
+Print Assumptions C08_no_panic_blind_proof_verify.
+
+Theorem C08_no_panic_blind_sign :
+  forall (E : env), (exists p, g1_dec (PR E) (c_p1 (cs E)) = Some p) ->
+  forall sk pk cwp header msgs, blind_sign E sk pk cwp header msgs <> Panic.
+Proof. exact no_panic_blind_sign. Qed.
+Check (C08_no_panic_blind_sign :
+  forall (E : env), (exists p, g1_dec (PR E) (c_p1 (cs E)) = Some p) ->
+  forall sk pk cwp header msgs, blind_sign E sk pk cwp header msgs <> Panic).
+Print Assumptions C08_no_panic_blind_sign.
+
+Theorem C08_no_panic_verify_blind_sign :
+  forall (E : env), (exists p, g1_dec (PR E) (c_p1 (cs E)) = Some p) ->
+  forall s pk header msgs cmsgs spb, verify_blind_sign E s pk header msgs cmsgs spb <> Panic.
+Proof. exact no_panic_verify_blind_sign. Qed.
+Check (C08_no_panic_verify_blind_sign :
+  forall (E : env), (exists p, g1_dec (PR E) (c_p1 (cs E)) = Some p) ->
+  forall s pk header msgs cmsgs spb, verify_blind_sign E s pk header msgs cmsgs spb <> Panic).
+Print Assumptions C08_no_panic_verify_blind_sign.
+
+Theorem C08_no_panic_deserialize_and_validate_commit :
+  forall (E : env) cwp bg api, deserialize_and_validate_commit E cwp bg api <> Panic.
+Proof. exact no_panic_deserialize_and_validate_commit. Qed.
+Check (C08_no_panic_deserialize_and_validate_commit :
+  forall (E : env) cwp bg api, deserialize_and_validate_commit E cwp bg api <> Panic).
+Print Assumptions C08_no_panic_deserialize_and_validate_commit.
+
+Theorem C08_no_panic_proof_gen :
+  forall (E : env), (exists p, g1_dec (PR E) (c_p1 (cs E)) = Some p) ->
+  forall pk sigb header ph msgs idx rho, proof_gen E pk sigb header ph msgs idx rho <> Panic.
+Proof. exact no_panic_proof_gen. Qed.
+Check (C08_no_panic_proof_gen :
+  forall (E : env), (exists p, g1_dec (PR E) (c_p1 (cs E)) = Some p) ->
+  forall pk sigb header ph msgs idx rho, proof_gen E pk sigb header ph msgs idx rho <> Panic).
+Print Assumptions C08_no_panic_proof_gen.
+
+Theorem C08_no_panic_blind_proof_gen :
+  forall (E : env), (exists p, g1_dec (PR E) (c_p1 (cs E)) = Some p) ->
+  forall pk sigb header ph msgs cmsgs idx cidx spb rho,
+  blind_proof_gen E pk sigb header ph msgs cmsgs idx cidx spb rho <> Panic.
+Proof. exact no_panic_blind_proof_gen. Qed.
+Check (C08_no_panic_blind_proof_gen :
+  forall (E : env), (exists p, g1_dec (PR E) (c_p1 (cs E)) = Some p) ->
+  forall pk sigb header ph msgs cmsgs idx cidx spb rho,
+  blind_proof_gen E pk sigb header ph msgs cmsgs idx cidx spb rho <> Panic).
+Print Assumptions C08_no_panic_blind_proof_gen.
+
+Theorem C08_no_panic_update_signature :
+  forall (E : env), (exists p, g1_dec (PR E) (c_p1 (cs E)) = Some p) ->
+  forall s sk old_m new_m ui n, update_signature E s sk old_m new_m ui n <> Panic.
+Proof. exact no_panic_update_signature. Qed.
+Check (C08_no_panic_update_signature :
+  forall (E : env), (exists p, g1_dec (PR E) (c_p1 (cs E)) = Some p) ->
+  forall s sk old_m new_m ui n, update_signature E s sk old_m new_m ui n <> Panic).
+Print Assumptions C08_no_panic_update_signature.
+
+Theorem C08_work_bound_proof_verify :
+  forall (E : env) p idx,
+  (gens_proof_verify E p idx <= length (p_m_cap E p) + length (option_default [] idx) + 1)%nat.
+Proof. exact work_bound_proof_verify. Qed.
+Check (C08_work_bound_proof_verify :
+  forall (E : env) p idx,
+  (gens_proof_verify E p idx <= length (p_m_cap E p) + length (option_default [] idx) + 1)%nat).
+Print Assumptions C08_work_bound_proof_verify.
+
+(* blind_proof_verify creates (L + 1) + (M + 1) generators only after both checked subtractions succeeded,
+   and then L + M + 2 <= |idx| + |cidx| + U + 1 *)
+Theorem C08_work_bound_blind_proof_verify :
+  forall (E : env) (p : pok E) (L : option N) idx cidx m1 M,
+  checked_sub (len (sort_dedup (option_default [] idx)) + len (sort_dedup (option_default [] cidx)) +
+               len (p_m_cap E p)) 1 = Some m1 ->
+  checked_sub m1 (option_default 0%N L) = Some M ->
+  (option_default 0 L + 1 + (M + 1) <=
+    len (option_default [] idx) + len (option_default [] cidx) + len (p_m_cap E p) + 1)%N.
+Proof. exact work_bound_blind_proof_verify. Qed.
+Check (C08_work_bound_blind_proof_verify :
+  forall (E : env) (p : pok E) (L : option N) idx cidx m1 M,
+  checked_sub (len (sort_dedup (option_default [] idx)) + len (sort_dedup (option_default [] cidx)) +
+               len (p_m_cap E p)) 1 = Some m1 ->
+  checked_sub m1 (option_default 0%N L) = Some M ->
+  (option_default 0 L + 1 + (M + 1) <=
+    len (option_default [] idx) + len (option_default [] cidx) + len (p_m_cap E p) + 1)%N).
+Print Assumptions C08_work_bound_blind_proof_verify.
+
+Theorem C08_work_bound_blind_sign :
+  forall (cwp : bytes) m1 m2,
+  checked_sub (len cwp) 48 = Some m1 -> checked_sub m1 32 = Some m2 -> (m2 / 32 <= len cwp / 32)%N.
+Proof. exact work_bound_blind_sign. Qed.
+Check (C08_work_bound_blind_sign :
+  forall (cwp : bytes) m1 m2,
+  checked_sub (len cwp) 48 = Some m1 -> checked_sub m1 32 = Some m2 -> (m2 / 32 <= len cwp / 32)%N).
+Print Assumptions C08_work_bound_blind_sign.
